@@ -1,26 +1,84 @@
 #!/usr/bin/env python3
-"""Runs, for every seeded change under seeded/, the checks of the properties it is labelled with
-(plus any extra IDs given on the command line) and writes seeded/MATRIX.json + a markdown table."""
-import json, os, subprocess, sys
+"""Runs, for every seeded change under seeded/, the quick checks of the properties it is labelled with
+(plus any extra IDs given on the command line) and writes seeded/MATRIX.json; each change's meta.json gets
+its `detection_quick_seed1` entry refreshed.
+
+  tools/seeded_matrix.py [--lanes K] [--only S73,S74,...] [--repo] [ID ...]
+
+Default: every change is evaluated in its own scratch copy (/repo's HEAD or the change's base_commit + the
+patch, with a copy of /verif whose harness depends on that copy; tools/mutant_scratch.py), K changes at a
+time, so /repo itself is never modified.  --repo applies each patch to /repo itself instead
+(tools/mutant_run.py, one at a time, /repo restored after each).
+"""
+import json
+import os
+import subprocess
+import sys
+from concurrent.futures import ThreadPoolExecutor
+
 ROOT = os.path.dirname(os.path.dirname(os.path.abspath(__file__)))
-extra = sys.argv[1:]
-rows = {}
-for sid in sorted(os.listdir(os.path.join(ROOT, "seeded"))):
+
+
+def evaluate(sid, extra, on_repo):
     d = os.path.join(ROOT, "seeded", sid)
-    if not os.path.isdir(d):
-        continue
     meta = json.load(open(os.path.join(d, "meta.json")))
     ids = sorted(set(meta["breaks_properties"] + extra))
     base = meta.get("base_commit", "").split()[0] if meta.get("base_commit") else None
-    if base:
-        # a change that relied on a defect repaired since: evaluate it on the tree it was written for
-        subprocess.run(["git", "-C", "/repo", "checkout", "-q", base])
-    r = subprocess.run([os.path.join(ROOT, "tools", "mutant_run.py"), os.path.join(d, "patch.diff")] + ids,
-                       stdout=subprocess.PIPE, text=True)
-    if base:
+    if on_repo:
+        if base:
+            subprocess.run(["git", "-C", "/repo", "checkout", "-q", base])
+        cmd = [os.path.join(ROOT, "tools", "mutant_run.py"), os.path.join(d, "patch.diff")] + ids
+    else:
+        cmd = [os.path.join(ROOT, "tools", "mutant_scratch.py"), os.path.join(d, "patch.diff")]
+        if base:
+            cmd += ["--base", base]
+        cmd += ids
+    r = subprocess.run(cmd, stdout=subprocess.PIPE, stderr=subprocess.STDOUT, text=True)
+    if on_repo and base:
         subprocess.run(["git", "-C", "/repo", "checkout", "-q", "main"])
     last = [l for l in r.stdout.splitlines() if l.startswith("{")]
     res = json.loads(last[-1])["results"] if last else {}
-    rows[sid] = {pid: {"exit": v["exit"], "signatures": v["signatures"][:3]} for pid, v in res.items()}
-    print(sid, {k: v["exit"] for k, v in rows[sid].items()}, flush=True)
-json.dump(rows, open(os.path.join(ROOT, "seeded", "MATRIX.json"), "w"), indent=1)
+    row = {pid: {"exit": v["exit"], "signatures": v["signatures"][:3], "notes": v.get("notes", [])[:1]} for pid, v in res.items()}
+    det = {}
+    for pid, v in row.items():
+        if v["exit"] == 1:
+            det[pid] = "fires (%s)" % ", ".join(s.split("/", 1)[1] if "/" in s else s for s in v["signatures"][:2])
+        elif v["exit"] == 0:
+            det[pid] = "silent"
+        else:
+            det[pid] = "exit %s: %s" % (v["exit"], (v["notes"] or ["inconclusive / harness error"])[0][:160])
+    meta["detection_quick_seed1"] = det
+    meta["ran"] = ("tools/seeded_matrix.py: quick tier, VERIF_SEED=1, " +
+                   ("patch applied to /repo itself and reverted (tools/mutant_run.py)" if on_repo else
+                    "in a scratch copy of /repo's HEAD%s + the patch (tools/mutant_scratch.py)" % (" at base_commit" if base else "")))
+    json.dump(meta, open(os.path.join(d, "meta.json"), "w"), indent=1)
+    print(sid, {k: v["exit"] for k, v in row.items()}, flush=True)
+    return sid, row
+
+
+def main():
+    a = sys.argv[1:]
+    lanes, only, on_repo, extra = 3, None, False, []
+    i = 0
+    while i < len(a):
+        if a[i] == "--lanes":
+            lanes = int(a[i + 1]); i += 2
+        elif a[i] == "--only":
+            only = a[i + 1].split(","); i += 2
+        elif a[i] == "--repo":
+            on_repo = True; lanes = 1; i += 1
+        else:
+            extra.append(a[i]); i += 1
+    sids = [s for s in sorted(os.listdir(os.path.join(ROOT, "seeded"))) if os.path.isdir(os.path.join(ROOT, "seeded", s))]
+    if only:
+        sids = [s for s in sids if any(s.startswith(o + "-") or s == o for o in only)]
+    mpath = os.path.join(ROOT, "seeded", "MATRIX.json")
+    rows = json.load(open(mpath)) if os.path.exists(mpath) else {}
+    with ThreadPoolExecutor(max_workers=lanes) as ex:
+        for sid, row in ex.map(lambda s: evaluate(s, extra, on_repo), sids):
+            rows[sid] = row
+            json.dump(rows, open(mpath, "w"), indent=1, sort_keys=True)
+
+
+if __name__ == "__main__":
+    main()
